@@ -43,7 +43,7 @@ EXPLANATION = ("Theorem: the STV/IRV/SequentialRCV/Alaska count loop never runs 
                "exception class) against the Lean model with the oracle taken from the recorded tiebreaks and the "
                "wrapped random primitives. Monitors (model-independent): winner count, partition at every round, "
                "monotone status, ValueError only with tiebreak=None and a tie across the seat boundary (reference "
-               "count), no other exception, 10 s alarm for non-termination.")
+               "count), no other exception, alarm for non-termination after 4 s of the process's own CPU time (wall-clock backstop 240 s).")
 
 N_QUICK, N_THOROUGH = 2400, 86400
 
@@ -380,7 +380,7 @@ def run_case(vk, case):
     else:
         failure = classify_failure(rule, cfg, spec, res, names)
         monitors.append({"name": "escaped-exception" if res["status"] == "exn" else "non-termination",
-                         "detail": res.get("msg", "no result within 10 s"), "failure": failure})
+                         "detail": res.get("msg", "no result within 4 s of CPU time"), "failure": failure})
     req = None
     expect = None
     if rule != "PluralityVeto" and res["status"] != "timeout":
